@@ -201,7 +201,10 @@ def plan_signature_cases(thorough):
                         continue
                     cases.append(dict(base, label=list(label), salg=salg, cls="relabel"))
                 for restrict, label in UNOFFERED.get(alg, []):
-                    cases.append(dict(base, label=list(label), salg="label", restrict=restrict, cls="unoffered"))
+                    extra = {}
+                    if site == "pha" and restrict == {"rsaSchemes": ["pkcs1"]}:
+                        extra["force_client_sigalg"] = [4, 1]     # the honest client finds no common scheme
+                    cases.append(dict(base, label=list(label), salg="label", restrict=restrict, cls="unoffered", **extra))
             # present certificate X (other type) but prove with the configured key
             if site != "pha":
                 swap = {"rsa": "ecdsa", "rsapss": "rsa", "ecdsa": "rsa", "ed25519": "ecdsa", "ed448": "ed25519",
@@ -245,8 +248,8 @@ def plan_dc_cases(thorough):
                 cases.append(dict(b, dcform=f))
             for f in ("bitflip", "empty", "certkey"):
                 cases.append(dict(b, cvform=f))
-            other = [x for x in ((8, 7), (4, 3), (8, 9), (5, 3)) if x != tuple(__import__(
-                "harness.props.c05_sites", fromlist=["DC_SCHEMES"]).DC_SCHEMES[k])]
+            own = {"dc_rsapss": (8, 9), "dc_ed25519": (8, 7), "dc_p256": (4, 3), "dc_p384": (5, 3)}[k]
+            other = [x for x in ((8, 7), (4, 3), (8, 9), (5, 3)) if x != own]
             cases.append(dict(b, offer_dc=[list(other[0])], cls="dc-unoffered"))
         cases.append({"site": "dc", "cred": cred, "ver": 4, "dckind": "dc_ed25519", "cert_sig": list(cs),
                       "restrict": {"rsaSigHashes": ["sha512"], "ecdsaSigHashes": ["sha512"],
